@@ -39,6 +39,11 @@ thread_local! {
     static SIZES: RefCell<Vec<usize>> = const { RefCell::new(Vec::new()) };
 }
 
+/// Sets the per-shard input sizes for the `TestWorld` that is created next on this thread.
+pub fn set_sizes(sizes: Vec<usize>) {
+    SIZES.with(|s| *s.borrow_mut() = sizes);
+}
+
 /// Distributes the (concatenated) input to the shards in consecutive chunks of the sizes set by the
 /// current request.
 pub struct BySizes;
@@ -53,9 +58,9 @@ impl Distribute for BySizes {
 }
 
 /// A stream with a size hint chosen by the harness.
-struct Hinted<S> {
-    inner: Pin<Box<S>>,
-    hint: usize,
+pub struct Hinted<S> {
+    pub inner: Pin<Box<S>>,
+    pub hint: usize,
 }
 
 impl<S: Stream> Stream for Hinted<S> {
@@ -68,7 +73,7 @@ impl<S: Stream> Stream for Hinted<S> {
     }
 }
 
-fn parse_lists(s: &str) -> Vec<Vec<u32>> {
+pub fn parse_lists(s: &str) -> Vec<Vec<u32>> {
     s.split('/').map(|l| parse_nat_list::<u32>(l)).collect()
 }
 
@@ -99,7 +104,7 @@ async fn run_n<const N: usize>(variant: String, dests: Vec<Vec<u32>>, hints: Vec
         .enumerate()
         .flat_map(|(s, l)| (0..l.len()).map(move |k| BA64::truncate_from((s * 1000 + k) as u128)))
         .collect();
-    SIZES.with(|s| *s.borrow_mut() = dests.iter().map(Vec::len).collect());
+    set_sizes(dests.iter().map(Vec::len).collect());
     let faulty = cut.is_some() || errs.iter().any(Option::is_some) || hints.iter().any(|h| *h < 0);
     let window = std::time::Duration::from_secs(if faulty { 3 } else { 15 });
     let mut config = TestWorldConfig::default().with_timeout_secs(60);
@@ -178,26 +183,31 @@ pub fn exec(req: &str) -> String {
         assert!(p.len() == 4 && p[0] == "cut", "harness: bad fault {c}");
         Cut { src: p[1].parse().unwrap(), dst: p[2].parse().unwrap(), k: p[3].parse().unwrap() }
     });
-    // TestWorld distributes the input on the thread that first polls the future: run the whole
-    // request on a runtime driven from ONE thread. That thread is a fresh one, so that a resharding
-    // that spins without ever yielding (it cannot be timed out from inside) is reported as `timeout`
-    // instead of blocking the suite; the spinning thread is abandoned.
+    run_isolated(move || async move {
+        match n {
+            1 => run_n::<1>(variant, dests, hints, errs, cut).await,
+            2 => run_n::<2>(variant, dests, hints, errs, cut).await,
+            3 => run_n::<3>(variant, dests, hints, errs, cut).await,
+            4 => run_n::<4>(variant, dests, hints, errs, cut).await,
+            5 => run_n::<5>(variant, dests, hints, errs, cut).await,
+            _ => panic!("harness: unsupported shard count {n}"),
+        }
+    })
+}
+
+/// TestWorld distributes the input on the thread that first polls the future: run the whole
+/// request on a runtime driven from ONE thread. That thread is a fresh one, so that a resharding
+/// that spins without ever yielding (it cannot be timed out from inside) is reported as `timeout`
+/// instead of blocking the suite; the spinning thread is abandoned.
+pub fn run_isolated<F, Fut>(f: F) -> String
+where
+    F: FnOnce() -> Fut + Send + 'static,
+    Fut: std::future::Future<Output = String>,
+{
     let (tx, rx) = std::sync::mpsc::channel();
     let worker = std::thread::spawn(move || {
         let rt = tokio::runtime::Builder::new_multi_thread().worker_threads(3).enable_all().build().unwrap();
-        let r = rt.block_on(async move {
-            tokio::time::timeout(std::time::Duration::from_secs(40), async move {
-                match n {
-                    1 => run_n::<1>(variant, dests, hints, errs, cut).await,
-                    2 => run_n::<2>(variant, dests, hints, errs, cut).await,
-                    3 => run_n::<3>(variant, dests, hints, errs, cut).await,
-                    4 => run_n::<4>(variant, dests, hints, errs, cut).await,
-                    5 => run_n::<5>(variant, dests, hints, errs, cut).await,
-                    _ => panic!("harness: unsupported shard count {n}"),
-                }
-            })
-            .await
-        });
+        let r = rt.block_on(async move { tokio::time::timeout(std::time::Duration::from_secs(40), f()).await });
         rt.shutdown_background();
         let _ = tx.send(r.unwrap_or_else(|_| "timeout".into()));
     });
@@ -212,11 +222,11 @@ pub fn exec(req: &str) -> String {
     }
 }
 
-fn show_lists(d: &[Vec<u32>]) -> String {
+pub fn show_lists(d: &[Vec<u32>]) -> String {
     d.iter().map(|l| nat_list(l)).collect::<Vec<_>>().join("/")
 }
 
-fn gen_dests(rng: &mut Rng, n: usize, sizes: &[usize], picker: &str, target: u32) -> Vec<Vec<u32>> {
+pub fn gen_dests(rng: &mut Rng, n: usize, sizes: &[usize], picker: &str, target: u32) -> Vec<Vec<u32>> {
     (0..n)
         .map(|s| {
             (0..sizes[s])
